@@ -769,6 +769,31 @@ func (m *endpointManager) resolveWorkloadEndpoints() {
 		delete(m.activeWlEndpoints, id)
 	}
 
+	// promoteShadowed re-queues the preferred shadowed endpoint, if any, that is waiting for the
+	// given (now free) interface name.  Endpoints that still have a pending update of their own
+	// are skipped: that (newer) update will be processed in its own right and must not be
+	// overwritten with the stale copy kept in shadowedWlEndpoints.
+	promoteShadowed := func(ifaceName string) {
+		bestShadowedId := types.WorkloadEndpointID{}
+		found := false
+		for sId, sWorkload := range m.shadowedWlEndpoints {
+			if sWorkload == nil || sWorkload.Name != ifaceName {
+				continue
+			}
+			if _, pending := m.pendingWlEpUpdates[sId]; pending {
+				continue
+			}
+			if !found || wlIdsAscending(&sId, &bestShadowedId) {
+				bestShadowedId = sId
+				found = true
+			}
+		}
+		if found {
+			m.pendingWlEpUpdates[bestShadowedId] = m.shadowedWlEndpoints[bestShadowedId]
+			delete(m.shadowedWlEndpoints, bestShadowedId)
+		}
+	}
+
 	// Repeat the following loop until the pending update map is empty.  Note that it's possible
 	// for an endpoint deletion to add a further update into the map (for a previously shadowed
 	// endpoint), so we cannot assume that a single iteration will always be enough.
@@ -777,6 +802,9 @@ func (m *endpointManager) resolveWorkloadEndpoints() {
 		for id, workload := range m.pendingWlEpUpdates {
 			logCxt := log.WithField("id", id)
 			oldWorkload := m.activeWlEndpoints[id]
+			// Whatever we recorded about this endpoint while it was shadowed is superseded by
+			// this update (or removal).
+			delete(m.shadowedWlEndpoints, id)
 			if workload != nil {
 				// Check if there is already an active workload endpoint with the same
 				// interface name.
@@ -794,6 +822,14 @@ func (m *endpointManager) resolveWorkloadEndpoints() {
 						logCxt.Info("Existing endpoint takes preference")
 						m.shadowedWlEndpoints[id] = workload
 						delete(m.pendingWlEpUpdates, id)
+						if oldWorkload != nil {
+							// The endpoint was active on another interface, which it no
+							// longer claims: remove that state and let a shadowed
+							// endpoint, if any, take the interface over.
+							removeActiveWorkload(logCxt, oldWorkload, id)
+							promoteShadowed(oldWorkload.Name)
+							m.epIDsToUpdateStatus.Add(id)
+						}
 						continue
 					}
 					logCxt.Info("New endpoint takes preference; remove existing")
@@ -816,6 +852,7 @@ func (m *endpointManager) resolveWorkloadEndpoints() {
 					m.wlIfaceNamesToReconfigure.Discard(oldWorkload.Name)
 					m.linkAddrsMgr.RemoveLinkLocalAddress(oldWorkload.Name)
 					delete(m.activeWlIfaceNameToID, oldWorkload.Name)
+					promoteShadowed(oldWorkload.Name)
 				}
 				adminUp := workload.State == "active"
 				m.updateWorkloadARPChains(id, workload)
@@ -863,20 +900,7 @@ func (m *endpointManager) resolveWorkloadEndpoints() {
 				if oldWorkload != nil {
 					// Check for another endpoint with the same interface name,
 					// that should now become active.
-					bestShadowedId := types.WorkloadEndpointID{}
-					for sId, sWorkload := range m.shadowedWlEndpoints {
-						logCxt.Infof("Old workload %v", oldWorkload)
-						logCxt.Infof("Shadowed workload %v", sWorkload)
-						if sWorkload.Name == oldWorkload.Name {
-							if bestShadowedId.EndpointId == "" || wlIdsAscending(&sId, &bestShadowedId) {
-								bestShadowedId = sId
-							}
-						}
-					}
-					if bestShadowedId.EndpointId != "" {
-						m.pendingWlEpUpdates[bestShadowedId] = m.shadowedWlEndpoints[bestShadowedId]
-						delete(m.shadowedWlEndpoints, bestShadowedId)
-					}
+					promoteShadowed(oldWorkload.Name)
 				}
 			}
 
